@@ -537,9 +537,9 @@ def case_list(tier, seed):
     quick = tier == "quick"
     cases = []
     vor = []
-    for i in range(40 if quick else 150):
+    for i in range(40 if quick else 200):
         style = gen.POINT_STYLES[i % len(gen.POINT_STYLES)]
-        n = int(rng.integers(4, 25)) if i % 3 == 0 else int(rng.integers(12, 70 if quick else 120))
+        n = int(rng.integers(4, 25)) if i % 3 == 0 else int(rng.integers(12, 70 if quick else 150))
         vor.append({"family": "voronoi", "style": style, "n": n, "seed": int(rng.integers(0, 2**31)), "shift": bool(i % 2)})
     til = []
     for n in range(1, (5 if quick else 9)):
@@ -744,7 +744,7 @@ def evaluate(ctx, cases, label):
 
 
 def run(ctx):
-    ctx.res.rule = ("periodic Voronoi lattices (4..70 seeds quick, ..120 thorough; six point styles, both shift settings), honeycomb / hex-square-oct / tri-non / square tilings, "
+    ctx.res.rule = ("periodic Voronoi lattices (4..70 seeds quick, ..150 thorough; six point styles, both shift settings), honeycomb / hex-square-oct / tri-non / square tilings, "
                     "their x / y / xy cuts, cut+trailing-edge removal, duals (triangulations), already truncated lattices (truncation twice), example graphs, edge-deleted and tiled lattices; "
                     "per lattice: make_dual, and vertices_to_polygon with None / scalar / one-element list / random subset (list and ndarray) / empty list. "
                     "non-trivial = dual of a lattice meeting the half-cell condition with >= 1 dual edge; truncation that truncates >= 1 vertex")
